@@ -24,7 +24,18 @@ RULE = ("case = generated template set (import library cached per environment, w
         "loop filters, top-level assignments, super()/self.block()) x 2-3 tasks (same or different "
         "main template, different data) x gate positions (a start gate + <=4 of the task's g() "
         "calls) x release order.  distinct = (template-set+task hash, release order) actually "
-        "executed with >= 2 task switches; 'interleavings' = number of distinct orders executed")
+        "executed with >= 2 task switches; 'interleavings' = number of distinct orders executed. "
+        "Every second case is a MODULE-BODY RACE: a generated library mlib.j2 (variables v1,v2 and "
+        "macros m1,m2, optionally importing a second gated library) whose top-level body awaits a "
+        "gated async environment global 1-3 times before / between / after its definitions, and "
+        "2-3 tasks on a BRAND-NEW environment per schedule whose main templates reach that library "
+        "through import, from-import, an include of an importing template or an import inside a "
+        "block (optionally after a task gate, optionally sharing one main template); gates = start "
+        "+ every g() call + every module-body call made by the task that is evaluating the body; "
+        "all release orders are enumerated depth-first by executing (waiting sets are dynamic), "
+        "capped at 120 (quick) / 3000 (thorough) + the same number of uniformly chosen orders; "
+        "modrace_import_while_body_suspended counts schedules in which a task entered the module "
+        "body while another task was suspended inside it")
 TECHNIQUE = "gate-scheduled asyncio tasks, enumerated release orders, differential vs solo render"
 LEVEL_TEXT = ("held on the executed gate-release orders (all orders of each case when their number "
               "is below the cap, a uniform sample otherwise); await points are those of the data "
@@ -36,13 +47,21 @@ ASSUMPTIONS = [
     "5000)",
     "solo output = render of the same template+data alone in a fresh environment built from the "
     "same sources; cases whose solo render is not repeatable in one environment are skipped",
+    "module-body races: the gated environment global returns a value that does not depend on the "
+    "calling task and the library keeps no mutable state, because the module of an import "
+    "without context is cached per environment by documented design; which task evaluates the "
+    "body (or whether several do) is therefore unobservable in a correct engine and is not "
+    "checked - only each task's output against its solo render",
 ]
 NSHARDS = {"quick": 16, "thorough": 16}
 BUDGET_S = {"quick": 12, "thorough": 420}
 FLOORS = {
     "quick": {"evaluations": 3000, "distinct": 2500,
-              "counters": {"schedules": 3000, "task_outputs_compared": 6000, "cases": 15,
-                           "gates_released": 12000, "schedules_fresh_env": 150}},
+              "counters": {"schedules": 2000, "task_outputs_compared": 6000, "cases": 8,
+                           "gates_released": 12000, "schedules_fresh_env": 150,
+                           "modrace_cases": 6, "modrace_schedules": 800,
+                           "modrace_import_while_body_suspended": 500,
+                           "modrace_cases_all_orders_enumerated": 3}},
     "thorough": {"evaluations": 120000, "distinct": 120000,
                  "counters": {"schedules": 120000, "task_outputs_compared": 300000, "cases": 70,
                               "gates_released": 1500000, "schedules_fresh_env": 6000}},
@@ -287,6 +306,213 @@ def run_case(ctx, case, quick, rng, loop):
     ctx.extra["interleavings_executed"] = ctx.extra.get("interleavings_executed", 0) + executed
 
 
+# ------------------------------------------------------------------ module-body races
+def make_modenv(case, mg):
+    env = make_env(case)
+    env.globals["mg"] = mg
+    return env
+
+
+async def run_modrace(loop, case, choices):
+    """One schedule in a BRAND-NEW environment.  Every task waits at a start gate,
+    at every call of its data function g() and at every call of the environment
+    global mg() made by a module body it is evaluating.  Whenever all unfinished
+    tasks are blocked, one is released: the one selected by the next entry of
+    `choices` (index into the sorted waiting task ids, modulo their number; beyond
+    the prefix: 0).
+    -> (results, factors, picks, trace, per-task mg() hits, import-overlap seen)"""
+    tasks = case["tasks"]
+    n = len(tasks)
+    waiting = {}
+    task_of = {}
+    in_body = [0] * n          # mg() calls currently suspended, per task
+    mg_hits = [0] * n
+    overlap = [False]
+
+    async def gate(tid):
+        fut = loop.create_future()
+        waiting[tid] = fut
+        await fut
+
+    async def mg(tag):
+        tid = task_of.get(asyncio.current_task())
+        if tid is not None:
+            mg_hits[tid] += 1
+            if any(in_body[o] for o in range(n) if o != tid):
+                # this task evaluates a module body while another task is suspended in one
+                overlap[0] = True
+            in_body[tid] += 1
+            try:
+                await gate(tid)
+            finally:
+                in_body[tid] -= 1
+        return "~" + tag + "~"
+
+    env = make_modenv(case, mg)
+
+    async def runner(tid):
+        task_of[asyncio.current_task()] = tid
+        await gate(tid)
+        spec = tasks[tid]
+
+        async def g(tag):
+            await gate(tid)
+            return "%s.%s" % (spec["name"], tag)
+
+        return await env.get_template(spec["main"]).render_async(name=spec["name"], g=g)
+
+    ts = [loop.create_task(runner(i)) for i in range(n)]
+
+    async def settle():
+        for _ in range(2000):
+            if all(t.done() or i in waiting for i, t in enumerate(ts)):
+                return
+            await asyncio.sleep(0)
+        raise Stuck("a task is neither at a gate nor done")
+
+    factors, trace, picks = [], [], []
+    try:
+        step = 0
+        while True:
+            await settle()
+            if all(t.done() for t in ts):
+                break
+            w = sorted(waiting)
+            pick = choices[step] % len(w) if step < len(choices) else 0
+            picks.append(pick)
+            factors.append(len(w))
+            trace.append(w[pick])
+            step += 1
+            if step > 400:
+                raise Stuck("more than 400 gate releases")
+            waiting.pop(w[pick]).set_result(None)
+    finally:
+        for t in ts:
+            if not t.done():
+                t.cancel()
+        res = await asyncio.gather(*ts, return_exceptions=True)
+    return res, factors, picks, trace, mg_hits, overlap[0]
+
+
+def modrace_solo(loop, case):
+    """Each task's render alone in its own fresh environment (module body
+    evaluated by that task, nothing concurrent), twice for repeatability."""
+    outs = []
+    for tid, spec in enumerate(case["tasks"]):
+        one = dict(case, tasks=[spec])
+        got = []
+        for _ in range(2):
+            res, _, _, _, hits, _ = loop.run_until_complete(run_modrace(loop, one, []))
+            if isinstance(res[0], BaseException):
+                raise res[0]
+            got.append((res[0], hits[0]))
+        if got[0] != got[1]:
+            return None
+        outs.append(got[0])
+    return outs
+
+
+def check_modrace(ctx, case, loop, solo_out, choices):
+    """-> (factors, trace) of the executed schedule, or None"""
+    try:
+        res, factors, picks, trace, mg_hits, overlap = loop.run_until_complete(
+            run_modrace(loop, case, choices))
+    except Stuck as e:
+        ctx.inconc("module-race scheduler stuck: %s" % e)
+        return None
+    tasks = case["tasks"]
+    ctx.ev()
+    ctx.count("modrace_schedules")
+    ctx.count("modrace_gates_released", len(trace))
+    ctx.count("modrace_module_body_gates", sum(mg_hits))
+    if overlap:
+        # a task reached its import (and, with an uncached module, entered the module
+        # body) while another task was suspended inside the module body
+        ctx.count("modrace_import_while_body_suspended")
+    if sum(1 for h in mg_hits if h) >= 2:
+        ctx.count("modrace_body_evaluated_by_several_tasks")
+    if switches(trace) >= 2:
+        ctx.dist(("modrace", core.h8([case["tpls"], case["tasks"]]), list(trace)))
+    rcase = {"kind": "modrace", "case": case, "choices": list(picks), "trace": list(trace)}
+    for tid, r in enumerate(res):
+        ctx.count("task_outputs_compared")
+        ctx.count("modrace_outputs_compared")
+        src = case["tpls"][tasks[tid]["main"]]
+        lab = src.split(GEN.LAB, 1)[0]
+        if isinstance(r, BaseException):
+            ctx.violation("interference:%s:raises:%s" % (lab, type(r).__name__),
+                          "fresh environment, task %d (%s) raised %r under gate-release order %s "
+                          "(tasks released one gate at a time; module body of mlib.j2 gated) but "
+                          "renders alone to %r; mlib.j2 = %r; main = %r"
+                          % (tid, tasks[tid]["main"], r, list(trace), solo_out[tid][0][:200],
+                             case["tpls"]["mlib.j2"], src), rcase)
+        elif r != solo_out[tid][0]:
+            ctx.violation("interference:%s:output-differs" % lab,
+                          "fresh environment, task %d (%s, name=%r) under gate-release order %s "
+                          "produced %r, alone %r; mlib.j2 = %r; main = %r"
+                          % (tid, tasks[tid]["main"], tasks[tid]["name"], list(trace), r[:300],
+                             solo_out[tid][0][:300], case["tpls"]["mlib.j2"], src), rcase)
+    return factors, trace
+
+
+def run_modcase(ctx, case, quick, rng, loop):
+    try:
+        solo_out = modrace_solo(loop, case)
+    except Exception as e:
+        ctx.count("modrace_case_rejected:" + type(e).__name__)
+        return
+    if solo_out is None:
+        ctx.count("case_skipped_solo_not_repeatable")
+        return
+    cap = 120 if quick else 3000
+    ctx.count("modrace_cases")
+    ctx.count("modrace_cases_%d_tasks" % len(case["tasks"]))
+    if "mlib2.j2" in case["tpls"]:
+        ctx.count("modrace_cases_nested_module")
+    for t in case["tasks"]:
+        ctx.count("fragment:" + case["tpls"][t["main"]].split(GEN.LAB, 1)[0])
+    if len({t["main"] for t in case["tasks"]}) < len(case["tasks"]):
+        ctx.count("modrace_cases_sharing_a_main_template")
+    if ctx.extra.get("modrace_sampled", 0) < 2:
+        ctx.extra["modrace_sampled"] = ctx.extra.get("modrace_sampled", 0) + 1
+        ctx.sample({"kind": "modrace", "tpls": case["tpls"], "tasks": case["tasks"]})
+    # depth-first enumeration of all release orders (the set of waiting tasks at each
+    # step is only known by executing), capped
+    stack = [[]]
+    runs = 0
+    while stack and runs < cap:
+        choices = stack.pop()
+        got = check_modrace(ctx, case, loop, solo_out, choices)
+        runs += 1
+        if got is None:
+            return
+        factors, _ = got
+        for pos in range(len(choices), len(factors)):
+            for alt in range(1, factors[pos]):
+                stack.append(choices + [0] * (pos - len(choices)) + [alt])
+        if runs % 40 == 0 and ctx.elapsed() > ctx.budget_s * 1.5:
+            ctx.count("cases_cut_by_time")
+            return
+    if not stack:
+        ctx.count("modrace_cases_all_orders_enumerated")
+        ctx.extra["modrace_orders_of_fully_enumerated_cases"] = \
+            ctx.extra.get("modrace_orders_of_fully_enumerated_cases", 0) + runs
+        return
+    # too many orders: the depth-first prefix above only varies late decisions; add a
+    # uniform-choice sample (explicit choice lists, so a failing schedule replays)
+    ctx.count("modrace_cases_orders_sampled")
+    seen = set()
+    for _ in range(cap):
+        choices = [rng.randrange(6) for _ in range(40)]
+        got = check_modrace(ctx, case, loop, solo_out, choices)
+        if got is None:
+            return
+        seen.add(tuple(got[1]))
+        if len(seen) % 40 == 0 and ctx.elapsed() > ctx.budget_s * 1.5:
+            ctx.count("cases_cut_by_time")
+            return
+
+
 def run(ctx):
     quick = ctx.tier == "quick"
     rng = ctx.rng("gen")
@@ -295,8 +521,11 @@ def run(ctx):
         i = 0
         nmax = 400 if quick else 20000
         while ctx.more(i, nmax, floor=2):
-            case = GEN.gen_case(rng)
-            run_case(ctx, case, quick, ctx.rng("case%d" % i), loop)
+            if i % 2 == 1:
+                run_modcase(ctx, GEN.gen_modcase(rng), quick, ctx.rng("case%d" % i), loop)
+            else:
+                case = GEN.gen_case(rng)
+                run_case(ctx, case, quick, ctx.rng("case%d" % i), loop)
             i += 1
     finally:
         loop.run_until_complete(loop.shutdown_asyncgens())
@@ -307,6 +536,11 @@ def replay(ctx, obj):
     case = obj["case"]
     loop = asyncio.new_event_loop()
     try:
+        if obj.get("kind") == "modrace":
+            solo_out = modrace_solo(loop, case)
+            if solo_out is not None:
+                check_modrace(ctx, case, loop, solo_out, list(obj["choices"]))
+            return
         prep = prepare(ctx, case, loop)
         if prep is None:
             return
